@@ -21,6 +21,17 @@ mod m {
     pub fn second(deps: &impl super::ModApi, a: i32) -> i32 { deps.first(a, a + 1) }
 }
 
+// functions stamped out by `macro_rules!`, parameter names partly written in the macro body and partly passed in
+// by the caller: the arguments un-mocking forwards are the *same identifiers* as the generated parameters — name
+// and hygiene (`combine`'s two parameters are both spelled `factor` and differ by hygiene only)
+macro_rules! stamped_no_deps {
+    ($Tr:ident, $Mock:ident, $name:ident, $extra:ident) => {
+        #[entrait($Tr, mock_api = $Mock, unimock = true, export, no_deps)]
+        fn $name(factor: i32, $extra: i32) -> i32 { factor * 10 + $extra }
+    };
+}
+stamped_no_deps!(Combine, CombineMock, combine, factor);
+stamped_no_deps!(Combine2, Combine2Mock, combine2, other);
 #[entrait_export(mock_api = TrMock, unimock = true)]
 pub trait Tr { fn tr(&self, a: i32, b: i32) -> i32; }
 
@@ -44,6 +55,12 @@ fn main() {
     expect!("unmocked.deps_is_mock", u.sub_twice(9, 1), 50);
     let u = Unimock::new_partial(m::ModMock::first.each_call(matching!(4, 5)).returns(77));
     expect!("unmocked.mod.deps_is_mock", u.second(4), 77);
-    println!("C11-PROBE cases=8 failed={bad}");
+    let u = Unimock::new_partial(());
+    expect!("unmocked.stamped.same_spelling", u.combine(1, 2), Impl::new(()).combine(1, 2));
+    expect!("unmocked.stamped.same_spelling.value", u.combine(1, 2), 12);
+    expect!("unmocked.stamped", u.combine2(3, 4), 34);
+    let u = Unimock::new(CombineMock.next_call(matching!(1, 2)).returns(9));
+    expect!("mocked.stamped", u.combine(1, 2), 9);
+    println!("C11-PROBE cases=12 failed={bad}");
     std::process::exit(if bad == 0 { 0 } else { 1 });
 }
